@@ -1,5 +1,14 @@
 """Which properties are claimed (drives MANIFEST.json via gen_manifest.py)."""
 CLAIMED = {
+    "C07": ("Lean 4 theorems: closed forms of encode/decode (wire layout) + decide +kernel over the regenerated type-code table; differential correspondence model vs pycomm3 vs an independent reference codec (exhaustive for 1-2 byte types)",
+            "kernel-checked closed forms of the codec model for every width/value (little-endian two's complement, BOOL 00/FF, LSB-first bit strings, string prefixes, padded fixed strings, concatenated arrays, every byte pattern decoded), tied to the code by regenerated tables and differential execution",
+            "DESIGN.md §7 C07"),
+    "C12": ("Lean 4 theorems by induction over recv/send scripts (all frames, all segmentations, all fault points) + differential correspondence of the real Socket against a scripted fake socket (all compositions of short frames)",
+            "receive returns exactly the frame for every split into non-empty chunks, CommError for every premature close/error/silence, never exhausts fuel; send delivers all bytes for every positive partial-send pattern; proved for unbounded frames and scripts",
+            "DESIGN.md §7 C12"),
+    "C17": ("Lean 4 theorems on the counter generator (closed form, range, period, adjacent sends differ for any history with < 65535 draws between consecutive sends) + correspondence of pycomm3.util.cycle over > 2 wraps",
+            "counter kernel proved for all histories of any length; the per-call bound on draws between consecutive sends is monitored on transcripts, not yet a theorem (partial)",
+            "DESIGN.md §7 C17"),
 }
 _PENDING = "not claimed yet: model/theorems/correspondence for this property are still being built (no technique switch; see DESIGN.md §7)"
 NOT_CLAIMED = {("C%02d" % i): _PENDING for i in range(1, 20)}
